@@ -164,7 +164,7 @@ def gen_size_case(seed, cid):
     N = cg.const("usize", n)
     elem = tg.ty(rng.choice([0, 0, 1]))
     et = T.ty_str(elem)
-    kind = rng.choice(["parties", "fold", "repeat", "repeat-untyped", "two-sizes", "const-expr-size", "const-expr-size"])
+    kind = rng.choice(["parties", "fold", "repeat", "repeat-untyped", "two-sizes", "nested", "const-expr-size", "const-expr-size"])
     defs = tg.defs_src()
     one_party = False
     if kind == "const-expr-size":
@@ -208,6 +208,15 @@ def gen_size_case(seed, cid):
         b = f"pub fn main(arr: [{et}; {n}], x: u32) -> (u32, {et}, {et}) {{ {body} }}\n"
         params = [["arr", {"k": "array", "elem": elem, "n": n}], ["x", {"k": "int", "t": "u32"}]]
         ret = TUP(INT("u32"), elem, elem)
+    elif kind == "nested":
+        # a table whose two sizes are constants: `[[T; M]; N]`
+        m = rng.choice(UNS_SMALL)
+        M = cg.const("usize", m)
+        body = "let mut c = 0u8; for row in t { for e in row { c = c + 1u8; } } (c, t[i][0usize], x)"
+        a = f"pub fn main(t: [[{et}; {M}]; {N}], i: usize, x: u8) -> (u8, {et}, u8) {{ {body} }}\n"
+        b = f"pub fn main(t: [[{et}; {m}]; {n}], i: usize, x: u8) -> (u8, {et}, u8) {{ {body} }}\n"
+        params = [["t", ARR(ARR(elem, m), n)], ["i", {"k": "int", "t": "usize"}], ["x", INT("u8")]]
+        ret = TUP(INT("u8"), elem, INT("u8"))
     elif kind == "repeat-untyped":
         # `[7; N]` with a number without a suffix where the type of the array is known from the context: the element
         # takes the element type of the context (an annotated let, the return value, a tuple field, an argument)
@@ -464,6 +473,34 @@ def run(ctx):
             else:
                 tally["mistyped-reported"] += 1
     seen, uniq = set(), []
+    # the literal API of the program compiled with constants: the text of an argument is parsed against the parameter
+    # type with the sizes filled in, exactly as for the program with the sizes written out
+    lit_cases = [c for c in cases if c["kind"].startswith("size:") and not c.get("one_party")]
+    pg = gen_prog.ProgGen(random.Random(0), features={"structs"})
+    lreqs = []
+    for c in lit_cases:
+        try:
+            texts = [pg.val_expr(t, v).text for (_, t), v in zip(c["params"], c["args"][0])]
+        except Exception:
+            continue
+        c["texts"] = texts
+        lreqs.append({"id": 2 * c["id"], "op": "parse_args", "src": c["src_a"], "consts": c["cg"].consts_json(), "texts": texts})
+        lreqs.append({"id": 2 * c["id"] + 1, "op": "parse_args", "src": c["src_b"], "consts": {}, "texts": texts})
+    lres = common.run_lines_guarded(common.GVH, lreqs, per_case_timeout=10.0)
+    tally["literal-arguments-agree"] = 0
+    for c in lit_cases:
+        if "texts" not in c:
+            continue
+        ra, rb = lres.get(2 * c["id"]) or {}, lres.get(2 * c["id"] + 1) or {}
+        sub = {"op": "c12", "seed": c["seed"], "kind": c["kind"], "src": c["src_a"], "substituted": c["src_b"], "consts": c["cg"].consts_json(), "texts": c["texts"]}
+        if not ra.get("ok") or not rb.get("ok"):
+            continue
+        if ra["args"] != rb["args"]:
+            k = next(i for i, (x, y) in enumerate(zip(ra["args"], rb["args"])) if x != y)
+            failures.append(Failure("oracle", "c12:literal-argument-differs:" + c["kind"].split(":")[1],
+                                    f"argument {k} (`{c['texts'][k]}`) given as text: {ra['args'][k]} for the program compiled with constants, {rb['args'][k]} for the program with the sizes written out", sub, rb["args"][k], ra["args"][k]))
+        else:
+            tally["literal-arguments-agree"] += 1
     # constants that refer to a later constant, to themselves or to a name that is not declared: an error, never a panic
     # and never a circuit (a constant may only use constants declared before it)
     bad_refs = []
@@ -506,7 +543,8 @@ def run(ctx):
                 "from usize constants, (2) generated programs in which literals are replaced by constants. Each is compiled with the "
                 "constants supplied and, independently, from the text with the values substituted: same input parties, same outputs on "
                 "4 argument tuples. Then some constants are left out / supplied with another type: compilation must return an error "
-                "naming them; constants that refer to a later constant, to themselves or to an unknown name must be rejected with an "
+                "naming them; the arguments of the programs with constant sizes are also given as TEXT (parse_arg) to both programs: "
+                "same verdict, same bits; constants that refer to a later constant, to themselves or to an unknown name must be rejected with an "
                 "error (no circuit, no panic). non-trivial = program pairs found equivalent",
         "distribution": {"results": tally, "kinds": kinds, "const_expression_roots": shapes, "compiler_model_with_constants": mtally},
         "samples": [{"src": cases[0]["src_a"]}, {"src": cases[1]["src_a"]}],
